@@ -19,6 +19,7 @@ LEVEL_TEXT = ('Bounded-exhaustive round-trip exploration of the real serialiser 
               'comparison against the reference description of the DAG (not only hash equality).')
 LEVEL_NOTE = 'trusted: reference cell model for the expected structure; DAG payload contents by representatives'
 TECHNIQUE = 'small-scope exhaustive enumeration of DAGs x serialisation options, round trip compared with a reference model'
+RULE += " Depth-limit DAGs: single-reference chains of depth 512/1000/1023 and double-reference ladders of depth 999/1022; every library call runs under the interpreter's DEFAULT recursion limit."
 ASSUMPTIONS = ['payload bytes are representatives; shapes/option sets/width boundaries are complete up to the bound']
 NOT_ASSERTED = ['has_cache_bits without has_idx (not a valid option combination)', 'Builder entry point for exotic roots (refused by design)']
 
